@@ -42,6 +42,7 @@ func (m *Machine) external(st *State, fr *Frame, instr ssa.Instruction, fn *ssa.
 		i := c.Bound("ri", m.ts.Idx())
 		in := c.And(m.idxLe(buf.Off, i), m.idxLt(i, m.idxAdd(buf.Off, buf.Len)))
 		m.setElemArr(st, buf.Elem, buf.Arr, l, c.Lambda(i, c.Ite(in, c.Select(k, i), c.Select(old, i))))
+		st.reads = append(append([]streamRead{}, st.reads...), streamRead{k, buf.Off, buf.Len})
 		rets := m.freshRets(st, sig, "readfull")
 		n := rets[0].(*Term)
 		err := rets[1].(*Iface)
@@ -548,12 +549,60 @@ func (m *Machine) onceDo(st *State, fr *Frame, instr ssa.Instruction, args []Val
 
 // ---------- strings ----------
 
+func (m *Machine) runeSort() *Sort { return m.ts.intSort(32) }
+
+// stringToRunes models []rune(s): a fresh array whose length and elements are uninterpreted
+// functions of s (UTF-8 decoding is not interpreted); 0 <= len(result) <= len(s).
 func (m *Machine) stringToRunes(st *State, s *Str, elem types.Type) Value {
-	panic(unsupported("string -> []rune"))
+	c := m.ctx
+	m.trusted["string <-> []rune conversions: uninterpreted UTF-8 decoding (rune count <= byte count; string([]rune(s)) == s for valid UTF-8 s)"] = true
+	n := c.App("runes.len", m.ts.Idx(), s.Len, s.Arr)
+	st.assume(c.And(m.idxLe(m.ts.IdxConst(0), n), m.idxLe(n, s.Len)))
+	i := c.Bound("ru", m.ts.Idx())
+	content := c.Lambda(i, c.App("runes.at", m.runeSort(), s.Len, s.Arr, i))
+	ref := m.AllocArray(st, elem, map[string]*Term{"": content}, "[]rune(string)")
+	m.runeSrc[ref.id] = &runeInfo{src: s, content: content, n: n}
+	return &Slice{Arr: ref, Off: m.ts.IdxConst(0), Len: n, Cap: n, Elem: elem}
+}
+
+type runeInfo struct {
+	src     *Str
+	content *Term
+	n       *Term
+}
+
+func (m *Machine) utf8norm(st *State, s *Str) *Str {
+	c := m.ctx
+	r := &Str{Len: c.App("utf8norm.len", m.ts.Idx(), s.Len, s.Arr), Arr: c.App("utf8norm.arr", ArrSort(m.ts.Idx(), m.ts.ByteSort()), s.Len, s.Arr)}
+	valid := c.App("validUTF8", BoolSort, s.Len, s.Arr)
+	three := m.ts.IdxConst(3)
+	var bound *Term
+	if m.mode == ModeInt {
+		bound = c.IMul(three, s.Len)
+	} else {
+		bound = c.BVBin("bvmul", three, s.Len)
+	}
+	m.assumeOnce(st, c.And(m.idxLe(m.ts.IdxConst(0), r.Len), m.idxLe(r.Len, bound),
+		c.Implies(valid, c.And(c.Eq(r.Len, s.Len), c.Eq(r.Arr, s.Arr)))))
+	k := c.Bound("un", m.ts.Idx())
+	m.assumeOnce(st, c.Forall([]*Term{k}, c.Implies(c.Or(m.idxLt(k, m.ts.IdxConst(0)), m.idxLe(r.Len, k)), c.Eq(c.Select(r.Arr, k), m.ts.zeroOf(m.ts.ByteSort())))))
+	return r
 }
 
 func (m *Machine) runesToString(st *State, s *Slice) Value {
-	panic(unsupported("[]rune -> string"))
+	c := m.ctx
+	if ri, ok := m.runeSrc[s.Arr.id]; ok {
+		l := m.ts.Leaves(s.Elem)[0]
+		cur := m.elemArr(st, s.Elem, s.Arr, l)
+		if cur == ri.content && s.Len == ri.n && s.Off.IsNum() && s.Off.num.Sign() == 0 {
+			return m.utf8norm(st, ri.src)
+		}
+	}
+	l := m.ts.Leaves(s.Elem)[0]
+	cur := m.elemArr(st, s.Elem, s.Arr, l)
+	r := &Str{Len: c.App("runes2str.len", m.ts.Idx(), s.Off, s.Len, cur), Arr: c.App("runes2str.arr", ArrSort(m.ts.Idx(), m.ts.ByteSort()), s.Off, s.Len, cur)}
+	m.assumeOnce(st, m.idxLe(m.ts.IdxConst(0), r.Len))
+	return r
 }
 
 // splitValue models strings.Split(s, sep) as a deterministic function of its arguments:
